@@ -787,7 +787,10 @@ def guided_paths(kernel, exr, argset, env, setup_fn, opts, mode, W, res):
                 continue
             sig = (p_.kind, getattr(p_, "trace", ()), repr(p_.payload) if p_.kind != "RET" else "")
             if sig not in seen:
+                p_.seeds = [inputs]
                 seen[sig] = p_
+            elif len(seen[sig].seeds) < 6:
+                seen[sig].seeds.append(inputs)
     exr.guide = None
     res["guided"] = {"seeds": nseed, "distinct_paths": len(seen), "skipped": nskip}
     res["notes"].append("trace-guided exploration: %d seed inputs, %d distinct paths" % (nseed, len(seen)))
@@ -884,6 +887,11 @@ def check_kernel_mode(sb, kernel, view, key, mod, consts, mode, opts, res, known
     nindet = 0
     if runner is not None:
         vecs = kernel.vectors(rng) if kernel.vectors else default_vectors(kernel, rng, opts["nrandom"])
+        if kernel.guided_seeds is not None:
+            gseeds = []
+            for p_ in paths:
+                gseeds += list(getattr(p_, "seeds", []))[:2]
+            vecs = gseeds[:60] + vecs[:10]
         for inputs in vecs:
             subs = subst_list(argset, inputs)
             if subs and pre is not True and pre is not False:
@@ -928,7 +936,8 @@ def check_kernel_mode(sb, kernel, view, key, mod, consts, mode, opts, res, known
                     if c is None:
                         amb = True
                 if active is None:
-                    if amb:
+                    if amb or kernel.guided_seeds is not None:
+                        # (trace-guided kernels only cover the paths of their seeds)
                         nindet += 1
                         continue
                     res["status"] = "encoding-mismatch"
@@ -1008,6 +1017,26 @@ def check_kernel_mode(sb, kernel, view, key, mod, consts, mode, opts, res, known
             continue
         if any(f is False for f in facts):
             res["obligations"].append({"label": lab, "verdict": "unsat", "solver": "trivial", "t": 0.0})
+            continue
+        # trace-guided paths carry the concrete seed inputs that produced them: try those as candidate models first
+        cand = None
+        for sd_ in (getattr(p, "seeds", None) or []):
+            try:
+                subs_ = subst_list(argset, sd_)
+                if all(truth(eval_closed(f, subs_)) is True for f in facts if not isinstance(f, bool)) and not any(f is False for f in facts):
+                    cand = sd_
+                    break
+            except Exception:
+                pass
+        if cand is not None:
+            rec = {"label": lab, "verdict": "sat", "solver": "seed-candidate", "t": 0.0}
+            rec["inputs"] = {k: (hex(x) if abs(x) > 1 << 20 else x) for k, x in cand.items()}
+            rec["symbolic_outcome"] = "%s %s" % (p.kind, short(p.payload))
+            conf = replay(sb, kernel, view, key, consts, cand, p, okind, regions)
+            rec.update(conf)
+            if conf["replay"] == "confirmed":
+                res["violations"].append(rec)
+            res["obligations"].append(rec)
             continue
         v, model, sv, dt = pf.check(base + facts)
         if v == "unknown" and kernel.splits is not None:
